@@ -22,13 +22,14 @@ def lockfile(repo):
     return os.path.join(os.path.dirname(os.path.dirname(os.path.abspath(__file__))), 'harness', 'Cargo.lock')
 
 
-def write_crate(dirpath, repo, be, body, astro=False, extra_features=()):
+def write_crate(dirpath, repo, be, body, astro=False, extra_features=(), extra_deps=()):
     os.makedirs(os.path.join(dirpath, 'src'), exist_ok=True)
     feats = ['doc'] + (['fpdec'] if be == 'dec' else []) + list(extra_features)
     toml = ['[package]', 'name = "probe"', 'version = "0.0.0"', 'edition = "2021"', '', '[dependencies]',
             'quantities = { path = "%s", features = [%s] }' % (repo, ', '.join('"%s"' % f for f in feats))]
     if astro:
         toml.append('astronomical-quantities = { path = "%s/astronimical_quantities" }' % repo)
+    toml += list(extra_deps)
     toml += ['', '[workspace]', '', '[profile.dev]', 'debug = false', 'incremental = false']
     open(os.path.join(dirpath, 'Cargo.toml'), 'w').write('\n'.join(toml) + '\n')
     shutil.copy(lockfile(repo), os.path.join(dirpath, 'Cargo.lock'))
